@@ -653,7 +653,18 @@ def load_beliefs() -> Dict[str, Dict[str, str]]:
     if not p.exists():
         return {}
     data = json.loads(p.read_text())
-    return {b["key"]: b for b in data.get("beliefs", [])}
+    return {norm_belief_key(b["key"]): b for b in data.get("beliefs", [])}
+
+
+def norm_belief_key(key: str) -> str:
+    """A1 keys name the raising construct; what an f-string interpolates is
+    not part of the identity (locals get renamed)."""
+    import re
+
+    parts = key.split("|", 4)
+    if len(parts) == 5 and parts[0] == "A1":
+        parts[4] = re.sub(r"\{[^{}]*\}", "{}", parts[4])
+    return "|".join(parts)
 
 
 # --------------------------------------------------------------------------
